@@ -368,6 +368,78 @@ fn check_convert(rng: &mut Rng, rep: &mut Report) {
   }
 }
 
+/// `substring` (Python slice on characters) and `replace` (regex with capture groups) on a captured string
+/// fragment with non-ASCII text
+fn check_substring_replace(rng: &mut Rng, rep: &mut Report) {
+  let lang = SupportLang::JavaScript;
+  let len = rng.below(9);
+  let text: String = (0..len).map(|_| *rng.pick(&['a', 'b', 'é', 'я', '世', '🦀', '_', ' ', 'Z'])).collect();
+  if text.is_empty() {
+    return;
+  }
+  let is_sub = rng.chance(1, 2);
+  let (s, e) = (if rng.chance(1, 4) { None } else { Some(rng.range(-10, 10)) }, if rng.chance(1, 4) { None } else { Some(rng.range(-10, 10)) });
+  let (re, by) = *rng.pick(&[("[ab]", "X"), ("(.)\\1", "<$1>"), ("^.", ""), ("é+", "e"), ("\\s+", "_"), ("(?P<w>[a-z]+)", "[$w]"), ("$", "!"), ("", "-")]);
+  let t = if is_sub {
+    let mut m = serde_json::Map::new();
+    m.insert("source".into(), json!("$V"));
+    if let Some(s) = s {
+      m.insert("startChar".into(), json!(s));
+    }
+    if let Some(e) = e {
+      m.insert("endChar".into(), json!(e));
+    }
+    json!({"substring": serde_json::Value::Object(m)})
+  } else {
+    json!({"replace": {"source": "$V", "replace": re, "by": by}})
+  };
+  let src = format!("x = \"{text}\";\n");
+  let yaml = serde_json::to_string(&json!({"id":"t","language":"JavaScript","rule":{"kind":"string_fragment","pattern":"$V"},"transform":{"T":t},"fix":"$T"})).unwrap();
+  let replay = json!({"monitor":"c07","case":"convert","source":src,"rule":yaml,"text":text});
+  let r = guarded(|| {
+    let g = GlobalRules::default();
+    let mut v = from_yaml_string::<SupportLang>(&yaml, &g).ok()?;
+    let cfg = v.pop()?;
+    let grep = lang.ast_grep(&src);
+    let root = grep.root();
+    let node = root.dfs().find(|n| n.kind() == "string_fragment")?;
+    if node.text() != text.as_str() {
+      return None;
+    }
+    let nm = cfg.matcher.match_node(node.clone())?;
+    let got = nm.get_env().get_transformed("T").map(|b| String::from_utf8_lossy(b).to_string());
+    Some(got)
+  });
+  rep.evaluations += 1;
+  match r {
+    Ok(Some(got)) => {
+      let want = if is_sub {
+        let chars: Vec<char> = text.chars().collect();
+        let n = chars.len() as i64;
+        let norm = |v: Option<i64>, default: i64| match v {
+          None => default,
+          Some(v) if v < 0 => (n + v).max(0),
+          Some(v) => v.min(n),
+        };
+        let (a, b) = (norm(s, 0), norm(e, n));
+        if a >= b { String::new() } else { chars[a as usize..b as usize].iter().collect() }
+      } else {
+        regex::Regex::new(&re.replace("\\\\", "\\")).map(|r| r.replace_all(&text, by).to_string()).unwrap_or_default()
+      };
+      rep.count(if is_sub { "verdicts_substring" } else { "verdicts_replace" }, 1);
+      if got.clone().unwrap_or_default() != want {
+        let what = if is_sub { format!("substring({text:?}, {s:?}, {e:?})") } else { format!("replace({text:?}, {re:?}, {by:?})") };
+        rep.violation(if is_sub { "C07/transform/substring" } else { "C07/transform/replace" }, &format!("{what} gives {got:?}, reference {want:?}"), replay);
+      }
+      if !text.is_ascii() {
+        rep.nontrivial(hash_parts(&["subrep", &text, &format!("{is_sub}{s:?}{e:?}{re}")]));
+      }
+    }
+    Ok(None) => {}
+    Err(p) => rep.violation(&format!("C07/panic/{}", p.site()), &format!("transform on {text:?}: panic at {}: {}", p.location, p.message), replay),
+  }
+}
+
 pub fn run_source(lang: SupportLang, fname: &str, src: &str, n_cases: usize, rng: &mut Rng, rep: &mut Report) {
   let lname = corpus::lang_name(lang);
   let grep = lang.ast_grep(src);
@@ -457,6 +529,7 @@ pub fn run(ctx: &Ctx, rep: &mut Report) {
   let mut rng = ctx.rng("c07");
   for _ in 0..(if ctx.thorough { 60000 } else { 1500 }) {
     check_convert(&mut rng, rep);
+    check_substring_replace(&mut rng, rep);
   }
   let files: Vec<SrcFile> = corpus::shard(&corpus::load_all(), ctx.shard, ctx.nshards);
   let n_cases = if ctx.thorough { 400 } else { 14 };
